@@ -11,6 +11,7 @@ import Mathlib.Data.List.Perm.Basic
 import NurbsVerif.Lemmas.UniqueRemove
 import NurbsVerif.Lemmas.A51LoopsCor
 import NurbsVerif.Lemmas.InsertCodedObj
+import NurbsVerif.Lemmas.FitParams
 
 /-!
 # C04  Knot insertion never changes the shape
@@ -418,8 +419,11 @@ applied to the object as the earlier directions left it.
 * `CallOk n S params nums tol`: every requested direction (`< n`) of the call is admissible, stated
   on the object the call is applied to (the other directions' knot vectors do not change before
   their turn).  The lists are read with `getD` (a missing entry = nothing requested); that they have exactly one
-  entry per direction – the code raises otherwise, the driver answers `ERR` – is a separate hypothesis of the
-  object-level theorems (`hpl`, `hnl`, `hlen`). -/
+  entry per direction is a separate hypothesis of the object-level theorems (`hpl`, `hnl`, `hlen`).  The code raises
+  when `num` has another length (with `check_num`) or `param` is too short (`IndexError`), the driver answers `ERR`
+  exactly there; a LONGER `param` list is accepted by the code (the surplus is never read, audit 4 H5) – the
+  theorems are stated for exactly one entry, the accepted surplus is covered by the correspondence stream
+  `list-lengths` of c06.py / c04.py only. -/
 
 /-- **Decidable route to admissibility**: if `u` is equal to or further than `tol` away from every knot
     of the direction, lies in `[U_p, U_n)`, and its number of occurrences plus `r` does not exceed the
@@ -697,17 +701,24 @@ example : AllActive 2 4 (fnOf ([0,0,0,1/2,1,1,1] : List ℚ)) := by decide +kern
     writes per pass, the final loop).  For every degree, knot function, control polygon, parameter, count
     `r ≥ 0`, multiplicity argument `s` and span argument `k` with `p ≤ k` and `r + s ≤ p` (exactly the
     condition under which no index of the code is negative) it returns, slot by slot, the list `knotInsertion`
-    returns.  `hkP` is the guard under which the code reads no control point past the end; it is not used. -/
+    returns.  `hkP` is the guard under which the code reads no control point past the end, `hspan` (span `k` is not
+    empty, `U_k < U_{k+1}`) together with `hm` (sorted knots) a guard under which the code does not raise
+    `ZeroDivisionError`: every alpha denominator is `U[i+k+1] - U[L+i]` with `L + i ≤ k - s ≤ k < k + 1 ≤ i + k + 1`,
+    hence positive (`insert_as_coded_denominators_positive`).  Where a denominator IS zero the model divides
+    `x / 0 = 0` and returns a net, the code raises and the driver ops `insa51` / `inspt` answer ERR (they test exactly
+    the denominators the loops compute, `Drv.a51DivByZero`); none of the three is used by the proof (the two model
+    functions agree without). -/
 theorem knot_insertion_as_coded_eq_model (p : ℕ) (U : ℕ → K) (P : List (List K)) (u : K) (r s k : ℕ)
-    (hpk : p ≤ k) (hkP : k < P.length) (hrs : r + s ≤ p) :
+    (hpk : p ≤ k) (hkP : k < P.length) (hrs : r + s ≤ p) (hm : Monotone U) (hspan : U k < U (k + 1)) :
     knotInsertionA51 p U P u r s k = knotInsertion p U P u r s k :=
   knotInsertionA51_eq_model p U P u r s k hpk hrs
 
 /-- **Surfaces**: `operations.insert_knot` sends every iso-curve of a surface through the point branch of the
     helper; the gather / scatter models applied to the loops as coded give the nets (and new sizes) they give
-    with the index-by-index model, so the surface theorems above are about the loops as coded. -/
+    with the index-by-index model, so the surface theorems above are about the loops as coded (`hspan`: non-empty
+    span, the no-`ZeroDivisionError` guard of the helper, as in `knot_insertion_as_coded_eq_model`). -/
 theorem insert_as_coded_surface_nets_eq (p : ℕ) (U : ℕ → K) (su sv : ℕ) (P : List (List K)) (u : K) (r s k : ℕ)
-    (hpk : p ≤ k) (hrs : r + s ≤ p) :
+    (hpk : p ≤ k) (hrs : r + s ≤ p) (hm : Monotone U) (hspan : U k < U (k + 1)) :
     mapSurfU su sv P (fun c => knotInsertionA51 p U c u r s k) = mapSurfU su sv P (fun c => knotInsertion p U c u r s k) ∧
     mapSurfV su sv P (fun c => knotInsertionA51 p U c u r s k) = mapSurfV su sv P (fun c => knotInsertion p U c u r s k) := by
   rw [knotInsertionA51_fun_eq p U u r s k hpk hrs]; exact ⟨rfl, rfl⟩
@@ -742,12 +753,42 @@ theorem insert_as_coded_preserves_curve (p : ℕ) (Ul : List K) (P : List (List 
       = (curvePoint p (fnOf Ul) P u).getD j 0 :=
   knotInsertionA51_preserves_curve p Ul P ub u r s d j hP hm hlen hpn hub1 hub2 hmult hr1 hrs hlo hhi hlast
 
-/-- The loops as coded return `r` more points, each with the `d` coordinates of the input points. -/
+/-- The loops as coded return `r` more points, each with the `d` coordinates of the input points.  Guards of the code
+    (audit 4, H7; the driver ops `insa51` / `inspt` answer ERR outside them): span `k` is not empty (`hspan`: else an
+    alpha denominator `U[i+k+1] - U[L+i]` is zero and the helper raises `ZeroDivisionError`, while the model divides
+    `x / 0 = 0` and still returns `n + r` points – `insert_as_coded_empty_span_witness`), and the points have at least
+    one coordinate (`hd`: the helper reads `temp[i][0]`-style slices of real points; `NetOk 0` nets of empty points make
+    it raise `IndexError`). -/
 theorem insert_as_coded_net_length (p : ℕ) (U : ℕ → K) (P : List (List K)) (u : K) (r s k d : ℕ) (hP : NetOk d P)
-    (hpk : p ≤ k) (hk : k < P.length) (hrs : r + s ≤ p) :
+    (hd : 1 ≤ d) (hpk : p ≤ k) (hk : k < P.length) (hrs : r + s ≤ p) (hm : Monotone U) (hspan : U k < U (k + 1)) :
     (knotInsertionA51 p U P u r s k).length = P.length + r ∧ NetOk d (knotInsertionA51 p U P u r s k) := by
   rw [knotInsertionA51_eq_model p U P u r s k hpk hrs]
   exact insert_net_length p U P u r s k d hP hpk hk hrs (by omega)
+
+/-- **Under the guards no alpha denominator of the insertion loop vanishes**: for sorted knots and a non-empty span
+    `k`, every denominator `U[i+k+1] - U[L+i]` (`L = k - p + j`, `1 ≤ j ≤ r`, `i ≤ p - j - s`) the loops of
+    `helpers.knot_insertion` divide by is positive. -/
+theorem insert_as_coded_denominators_positive (p : ℕ) (U : ℕ → K) (r s k j i : ℕ) (hpk : p ≤ k) (hrs : r + s ≤ p)
+    (hm : Monotone U) (hspan : U k < U (k + 1)) (hj1 : 1 ≤ j) (hjr : j ≤ r) (hi : i + j + s ≤ p) :
+    0 < U (i + k + 1) - U (k - p + j + i) := by
+  have h1 : U (k - p + j + i) ≤ U k := hm (by omega)
+  have h2 : U (k + 1) ≤ U (i + k + 1) := hm (by omega)
+  linarith
+
+/-- **Outside the span guard the model and the code part** (closed witness, audit 4 H7): `U = [0,0,0,1/2,1/2,1,1,1]`,
+    `p = 2`, five points, `u = 1/2`, `num = 2`, `s = 0`, span argument `k = 3` – the span `[U_3, U_4)` is EMPTY; the
+    real `helpers.knot_insertion` raises `ZeroDivisionError`, the transcription returns seven points (`x / 0 = 0`). -/
+theorem insert_as_coded_empty_span_witness :
+    ¬ (fnOf ([0,0,0,1/2,1/2,1,1,1] : List ℚ) 3 < fnOf ([0,0,0,1/2,1/2,1,1,1] : List ℚ) 4) ∧
+    knotInsertionA51 2 (fnOf ([0,0,0,1/2,1/2,1,1,1] : List ℚ)) [[0,0],[1,2],[2,0],[3,1],[4,0]] (1/2) 2 0 3
+      = [[0,0],[1,2],[2,0],[2,0],[2,0],[3,1],[4,0]] := by decide +kernel
+
+/-- the guards of `insert_as_coded_net_length` on the cubic witness below: span `k = 4` is `[1/2, 1)`, points of 2
+    coordinates – the theorem applies and gives seven points -/
+example : (knotInsertionA51 3 (fnOf ([0,0,0,0,1/2,1,1,1,1] : List ℚ)) [[0,0],[1,2],[3,3],[4,1],[5,0]] (1/2) 2 1 4).length = 5 + 2 :=
+  (insert_as_coded_net_length 3 (fnOf ([0,0,0,0,1/2,1,1,1,1] : List ℚ)) [[0,0],[1,2],[3,3],[4,1],[5,0]] (1/2) 2 1 4 2
+    (by intro q hq; revert q; decide) (by decide) (by decide) (by decide) (by decide)
+    (fnOf_monotone_of_isSortedB _ (by decide +kernel)) (by decide +kernel)).1
 
 /-- non-vacuity: a cubic with knots 0,0,0,0,1/2,1,1,1,1 (five 2-D points), the knot 1/2 (multiplicity `s = 1`,
     span `k = 4`) inserted `r = 2` times: the guard holds (`3 ≤ 4 < 5`, `2 + 1 ≤ 3`), the loops as coded return
